@@ -78,18 +78,34 @@ static void pos_build(const uint32_t *mat, int n, uint32_t side, int flags) {
   P.POS_history_counter = 1;
   P.POS_ply_counter = 1;
   /* one-ply retro-legality: the side that just moved is not in check (this also keeps the kings apart) ... */
-  __CPROVER_assume(!s_attacked(&S, s_king_sq(&S, 1 - side), side));
+  __CPROVER_assume(!S_ATTACKED(&S, s_king_sq(&S, 1 - side), side));
   /* ... and the double push that created the en-passant square was itself legal: with the pawn back on its
      origin square the side now to move was not in check (it was the opponent's turn then) */
   if (ep != 64) {
     SBoard B = S;
     int cur = side == 0 ? ep - 8 : ep + 8, org = side == 0 ? ep + 8 : ep - 8;
     B.b[org] = B.b[cur]; B.b[cur] = 0;
-    __CPROVER_assume(!s_attacked(&B, s_king_sq(&B, side), 1 - side));
+    __CPROVER_assume(!S_ATTACKED(&B, s_king_sq(&B, side), 1 - side));
   }
 }
 static uint32_t enc_move(SMove m) { return m.castle ? ((uint32_t)m.castle << 15) : ((uint32_t)m.promo << 12 | (uint32_t)m.to << 6 | m.from); }
 static SMove dec_move(uint32_t v) { SMove m; m.castle = (v >> 15) & 3; m.from = v & 63; m.to = (v >> 6) & 63; m.promo = (v >> 12) & 7; return m; }
+/* colour-mirrored copy of the position just built by pos_build: ranks flipped, colours, castling rights,
+   en-passant square and side to move swapped.  Piece lists are filled in the same material order. */
+static Pos PM; static SBoard SM;
+static void pos_mirror(void) {
+  for (int i = 0; i < 64; i++) SM.b[i] = 0;
+  for (int i = 0; i < NPMAX; i++) if (i < (int)ce_n) {
+    uint32_t pc = ce_pc[i] > 6 ? ce_pc[i] - 6 : ce_pc[i] + 6, sq = ce_sq[i] ^ 56;
+    pos_put(&PM, pc, sq); SM.b[sq] = pc;
+  }
+  PM.POS_current_side = 1 - ce_side; SM.side = 1 - ce_side;
+  uint32_t cr = ((ce_cr & 3) << 2) | ((ce_cr >> 2) & 3);
+  PM.POS_castling_rights = cr; SM.cr = cr;
+  uint32_t ep = ce_ep == 64 ? 64 : (ce_ep ^ 56);
+  PM.POS_enpassant_square = ep; SM.ep = ep;
+  PM.POS_history_counter = 1; PM.POS_ply_counter = 1;
+}
 static SMove nondet_move(void) {
   SMove m; m.from = nondet_u8(); m.to = nondet_u8(); m.promo = nondet_u8(); m.castle = nondet_u8();
   __CPROVER_assume(m.from < 64 && m.to < 64 && m.promo < 8 && m.castle < 3);
